@@ -73,7 +73,10 @@ RULE_ADDED = (
               'xchange. '
               ' '
               'Round 17: a manager serving thousands of requests (version requests by half of t'
-              'he clients) with device requests queued throughout. ')
+              'he clients) with device requests queued throughout. '
+              ' '
+              'Round 20: rounds in which 66..257 clients (70 in the quick tier) arrive behind o'
+              'ne slow request. ')
 RULE = RULE + " " + RULE_ADDED.strip()
 ASSUMPTIONS = [
     "schedules are those the OS produces under injected device delays; not enumerated",
@@ -111,7 +114,8 @@ def shards(tier, seed):
                  "slowsend_rounds": 2 if i in (4, 5, 6, 7) else 0,
                  "fatal_rounds": 4 if i in (3, 4, 6, 7) else 0,
                  "quiet": [31.0, 601.0] if i in (0, 1, 5) else [],
-                 "uihb_tail": [12.5] if i == 2 else []} for i in range(8)]
+                 "uihb_tail": [12.5] if i == 2 else [],
+                 "crowd": [70] if i == 7 else []} for i in range(8)]
     slow = {0: [6.5], 1: [12.0], 2: [32.0], 3: [62.0], 4: [125.0]}
     return [{"seed": seed * 100 + i, "rounds": 60, "max_clients": 16, "per_client": 4,
              "slow": slow.get(i, []), "impatient": [3.5, 6.5, 12.0], "v1_rounds": 8, "sgx_rounds": 8,
@@ -120,7 +124,8 @@ def shards(tier, seed):
              "late": [10.5, 35.0, 12.5, 61.0, 30.0, 29.0] if i >= 5 else [],
              "slowsend_rounds": 3, "fatal_rounds": 8,
              "quiet": [11.0, 31.0, 61.0, 301.0, 3601.0, 86401.0],
-             "uihb_tail": [12.5, 21.0] if i < 5 else []}
+             "uihb_tail": [12.5, 21.0] if i < 5 else [],
+             "crowd": [[66, 70], [101, 130], [257]][i % 3] if i >= 8 else []}
             for i in range(16)]
 
 
@@ -289,7 +294,7 @@ def expected_from_apdus(kind, apdus):
 
 def run_round(acc, spec, rnd, rng, slow=None, fault=None, late=None, slowsend=False,
               uihb_tail=None, fatal=None, quiet=None, impatient=None, v1=False, plat=None,
-              long_lived=None):
+              long_lived=None, crowd=None):
     """fault: {"after": k, "efail": j, "kind": ...} - the link fails at the k-th exchange
     of the round and the next j reconnections find no device; clients keep sending for
     some seconds, so that any repair work done outside a request (a background retry)
@@ -326,6 +331,10 @@ def run_round(acc, spec, rnd, rng, slow=None, fault=None, late=None, slowsend=Fa
         nclients, per = 3, 7
     if long_lived:
         nclients = 4
+    if crowd:
+        # crowd: that many clients (more than any round number of pending requests a server
+        # may have been sized for: 64, 100, 128) arrive while one slow request is served
+        nclients, per = crowd, 1
     case = {"seed": spec["seed"], "round": rnd}
     with Stack(dev, version_one=v1) as s:
         delay_rng = random.Random(rng.getrandbits(32))
@@ -400,6 +409,9 @@ def run_round(acc, spec, rnd, rng, slow=None, fault=None, late=None, slowsend=Fa
                 byname = dict(gens)
                 plan[c] = [("state", byname["state"])] if c == 0 else \
                     [("signhash", byname["signhash"]), ("pubkey", byname["pubkey"])]
+                if crowd and c > 0:
+                    plan[c] = [plan[c][c % 2]] if plat == "sgx" or c % 3 else \
+                        [("heartbeat", byname["heartbeat"])]
             if slowsend:
                 # even clients: prompt senders of long multi-exchange requests, so that
                 # the device is busy most of the time; odd clients: the late senders
@@ -525,7 +537,7 @@ def run_round(acc, spec, rnd, rng, slow=None, fault=None, late=None, slowsend=Fa
             except threading.BrokenBarrierError:
                 pass
             if slow and c > 0:
-                time.sleep(0.3 * c)
+                time.sleep(0.3 * c if not crowd else 0.15 + 0.004 * c)
             t_start = time.time()
             for i, (kind, mk) in enumerate(plan[c]):
                 if kind == "jump":
@@ -860,6 +872,9 @@ def run_shard(spec, acc):
     for k, total in enumerate(spec.get("slow", [])):
         acc.count("slow_request_rounds")
         run_round(acc, spec, 1000 + k, rng, slow=total)
+    for k, n_ in enumerate(spec.get("crowd", [])):
+        acc.count("rounds_with_a_crowd_of_more_than_64_clients_behind_a_slow_request")
+        run_round(acc, spec, 1500 + k, rng, slow=2.7, crowd=n_)
     for k, total in enumerate(spec.get("impatient", [])):
         acc.count("rounds_with_a_client_hanging_up_on_its_long_request")
         run_round(acc, spec, 8000 + k, rng, slow=total, impatient=rng.choice([0.2, 0.5, 1.2]))
